@@ -2,18 +2,28 @@
 (* C14 direction B: executions recorded from the real CellList are re-computed by TLC with
    the declarative operators of CellGridOps.
 
-   TRACE_FILE is a JSON array of traces.  Event 1 of a trace is the construction
-     {op: "construct", atoms: [[x,y,z],...], cs: [num,den], box: [] | [[r1,r2,r3]],
-      sel: [] | [[bool,...]]}
-   (coordinates in integer ticks; the driver divided them by a power of two).  Every
-   further event is one public call on that cell list:
-     {op: "get_atoms", q: [points], rho: [[num,den] per point], got: [[indices] per point]}
-     {op: "cells",     q: [points], c: [cell radius per point], got: [[indices] per point]}
+   TRACE_FILE is a JSON array of traces.  A trace is a SESSION: event 1 is the construction
+     {op: "construct", atoms: [[x,y,z],...], cs: [num,den], sel: [] | [[bool,...]],
+      container: "nd" | "aa", own: [] | [B], box: [] | [B], periodic: bool,    (construction form)
+      kinds: [coordinates, -, -, selection, box], scale: ticks per unit,
+      out: "ok" | "Rejected", changed: [names of caller's arrays whose memory changed]}
+   (coordinates in integer ticks; the driver divided them by a power of two; own = the box
+   attribute of the AtomArray, box = the box= parameter).  The box that counts is
+   EffBox(form); a form without any box for a periodic list must be refused.  Every
+   further event is one public call on that cell list; the argument arrays are objects of the
+   session that are used again by later calls:
+     {op: "get_atoms", q: [points], rho: [[num,den] per point], multi: bool, got: [[indices] per point]}
+     {op: "cells",     q: [points], c: [cell radius per point], multi: bool, got: [[indices] per point]}
      {op: "adjacency", rho: [num,den], got: [[indices] per atom]}
-     {op: "pairdist",  pairs: [[i,j],...], got: [squared distance in ticks^2 per pair]}
-     {op: "distadj",   rho: [num,den], got: [[indices] per atom]}
+     {op: "pairdist",  pairs: [[i,j],...], got: [squared distance in ticks^2 per pair], box_used}
+     {op: "distadj",   rho: [num,den], got: [[indices] per atom], box_used}
+   each with  qk, rk (kinds of the query and the radii array), out ("ok" | "Rejected") and
+   changed (as above).  q / rho / c are the values the arrays were MADE from (ArgsAfter: a call
+   changes no array, so they are the values of every later use as well): changed must be empty,
+   and a refusal is accepted only for the kinds in RefusableKinds.
    pairdist / distadj are the library's own pairwise distance matrix (index_distance with
-   periodic=True, distance(box=...)): entries (0-based atom pairs; -1 = the value was not the
+   periodic=True, distance(box=...)) computed with the box box_used (= EffBox(form), checked):
+   entries (0-based atom pairs; -1 = the value was not the
    distance of two lattice points) and its rows thresholded at rho and restricted to the
    selection.  They must equal PairD2 / AdjRow ("the adjacency matrix equals the thresholded
    pairwise distance matrix"); for a box outside Dom_Images8 only got >= PairD2 and
@@ -32,17 +42,33 @@ Tr == JsonDeserialize(IOEnv.TRACE_FILE)
 VARIABLES trcNo, evNo
 tvars == <<trcNo, evNo>>
 
-InputOf(t) == LET e == Tr[t][1] IN <<e.atoms, e.cs, e.box, e.sel>>
+FormOf(e) == <<e.container, e.own, e.box, e.periodic>>
+InputOf(t) == LET e == Tr[t][1] IN FormInput(e.atoms, e.cs, e.sel, FormOf(e))
+\* the kinds of the arrays an event hands to the call, in the layout of the session model
+EvKinds(t, e) == <<Tr[t][1].kinds[1], e.qk, e.rk, Tr[t][1].kinds[4], Tr[t][1].kinds[5]>>
+EvOp(e) == CASE e.op = "get_atoms" -> (IF e.multi THEN "multi" ELSE "near")
+             [] e.op = "cells" -> (IF e.multi THEN "cells_multi_mask" ELSE "cells")
+             [] OTHER -> "adj"
+EvRhos(e) == IF e.op = "get_atoms" /\ e.multi THEN e.rho ELSE <<>>
 Zero(S) == {k - 1 : k \in S}           \* 1-based positions -> 0-based indices
 
 FirstBad(ok) == IF \A j \in DOMAIN ok : ok[j] THEN 0 ELSE CHOOSE j \in DOMAIN ok : ~ok[j] /\ \A i \in 1..(j - 1) : ok[i]
 
-Judge(t, k) ==
+JudgeConstruct(t, k) ==
+  LET e == Tr[t][k]  f == FormOf(e) IN
+  IF ~(k = 1 /\ Dom_Form(f) /\ Dom_Kinds(e.kinds) /\ Dom_KindValues(e.kinds, e.scale, <<>>))
+  THEN PrintT(<<"MISMATCH", t, k, 0, "domain">>)
+  ELSE IF e.changed # <<>> THEN PrintT(<<"MISMATCH", t, k, 0, "callers_array_changed">>)
+  ELSE IF FormOutcome(f) = "Rejected"
+  THEN (IF e.out = "Rejected" /\ Len(Tr[t]) = 1 THEN TRUE ELSE PrintT(<<"MISMATCH", t, k, 0, "construction must be refused">>))
+  ELSE IF e.out = "Rejected"
+  THEN (IF MayRefuseConstruct(e.kinds) /\ Len(Tr[t]) = 1 THEN TRUE ELSE PrintT(<<"MISMATCH", t, k, 0, "construction refused">>))
+  ELSE IF Dom_Input(InputOf(t)) /\ (IsPeriodic(InputOf(t)) => BoxOf(InputOf(t)) \in TabBoxes) THEN TRUE
+  ELSE PrintT(<<"MISMATCH", t, k, 0, "domain">>)
+
+JudgeAnswer(t, k) ==
   LET e == Tr[t][k]  inp == InputOf(t) IN
-  CASE e.op = "construct" ->
-         IF Dom_Input(inp) /\ (IsPeriodic(inp) => BoxOf(inp) \in TabBoxes) /\ k = 1 THEN TRUE
-         ELSE PrintT(<<"MISMATCH", t, k, 0, "domain">>)
-    [] e.op = "get_atoms" ->
+  CASE e.op = "get_atoms" ->
          LET exp == [j \in DOMAIN e.q |-> Zero(Near(inp, e.q[j], e.rho[j]))]
              ok  == [j \in DOMAIN e.q |-> ToSet(e.got[j]) = exp[j]]
              b   == FirstBad(ok)
@@ -75,6 +101,20 @@ Judge(t, k) ==
          IN IF Len(e.got) = N(inp) /\ b = 0 THEN TRUE
             ELSE PrintT(<<"MISMATCH", t, k, b, IF b = 0 THEN {} ELSE exp[b]>>)
     [] OTHER -> PrintT(<<"MISMATCH", t, k, 0, "unknown op">>)
+
+\* every call: the caller's arrays are unchanged (ArgsAfter); a refusal only for RefusableKinds and
+\* never for a call that reads no caller's array; otherwise the answer is judged
+Judge(t, k) ==
+  LET e == Tr[t][k] IN
+  IF e.op = "construct" THEN JudgeConstruct(t, k)
+  ELSE IF ~(Dom_Kinds(EvKinds(t, e)) /\ Dom_KindValues(EvKinds(t, e), Tr[t][1].scale, EvRhos(e)) /\ Tr[t][1].out = "ok")
+  THEN PrintT(<<"MISMATCH", t, k, 0, "domain">>)
+  ELSE IF e.changed # <<>> THEN PrintT(<<"MISMATCH", t, k, 0, "callers_array_changed">>)
+  ELSE IF e.out = "Rejected"
+  THEN (IF e.op \in {"get_atoms", "cells"} /\ MayRefuseCall(EvOp(e), EvKinds(t, e)) THEN TRUE
+        ELSE PrintT(<<"MISMATCH", t, k, 0, "call refused">>))
+  ELSE IF e.op \in {"pairdist", "distadj"} /\ e.box_used # InputOf(t)[3] THEN PrintT(<<"MISMATCH", t, k, 0, "box_used">>)
+  ELSE JudgeAnswer(t, k)
 
 Init == trcNo \in 1..Len(Tr) /\ evNo = 0
 Next == /\ evNo < Len(Tr[trcNo])
